@@ -112,6 +112,27 @@ def exhaustive_iter(depth):
 # nth / skip with an index near usize::MAX (any offset arithmetic in an `nth` override must not wrap)
 HUGE_NTH = [(1 << 64) - 1, (1 << 64) - 2, 1 << 63, (1 << 63) - 1, 1 << 32, (1 << 32) - 1]
 
+def internal_iteration_reqs(rng, tier):
+    """internal iteration (`fold`, `for_each`, `rfold`, `rev().collect()`, `sum`) on fresh and PARTIALLY CONSUMED digit
+    iterators: every short prefix of next / next_back / nth calls, on values whose top digit has a zero / non-zero high
+    half, 0 … 5 digits (C09-z1: a `fold` override that mishandles "first remaining digit is also the last one")"""
+    reqs = []
+    vals = [0, 5, (1 << 32) + 5, (1 << 32), MAX, B, B + 5, (1 << 96) + 7, val([7, 0xdeadbeef00000007]), val([1, 2, 3]), val([MAX, MAX, 1]),
+            val([0, 0, 1 << 32]), big(rng, 4), big(rng, 5) >> 33]
+    prefixes = ["-", "n", "b", "nn", "nb", "bn", "bb", "nnn", "nnb", "bbn", "nbnb", "t0", "t1", "nt1", "bt0", "nnnn", "bbbb", "nnnnn", "nbbbn", "lnh", "nlb"]
+    if tier == "thorough":
+        prefixes += ["".join(rng.choice("nbnb" + "t") + (str(rng.randrange(3)) if False else "") for _ in range(rng.randrange(1, 9))).replace("t", "t0") for _ in range(60)]
+    kinds = ["F", "E", "R", "V", "S"]
+    k = 0
+    for v in vals:
+        for p in prefixes:
+            for kind in (kinds if tier == "thorough" else [kinds[k % 5], kinds[(k + 2) % 5]]):
+                reqs.append("C09 iter32x %s %s %s" % (wu(v), p, kind))
+                if k % 3 == 0:
+                    reqs.append("C09 iter64x %s %s %s" % (wu(v), p, kind))
+            k += 1
+    return reqs
+
 def rand_calls(rng, maxlen=12):
     n = rng.randrange(0, maxlen + 1)
     cs = []
@@ -128,7 +149,7 @@ def rand_calls(rng, maxlen=12):
     return "".join(cs) or "-"
 
 def gen(rng, tier):
-    reqs = []
+    reqs = internal_iteration_reqs(rng, tier)
     thorough = tier == "thorough"
     vs = values(rng, tier)
     em = edge_magnitudes(tier)
